@@ -1,17 +1,586 @@
-//! stub: component `waitset` (to be written)
+//! C20: the real `iceoryx2::waitset::WaitSet` driven through its public API, one call per line.
+//!
+//! Attachable objects are `Listener<ipc::Service>` ports (file-descriptor based: unix datagram
+//! socket + counting bit set in shared memory), one `Notifier` per service.  `WaitSet<S>` only uses
+//! `S::Reactor`, so three wait-set variants are driven with the same listeners:
+//!   * `ipc`: `WaitSet<ipc::Service>`  — reactor::epoll (the Linux default), capacity = max_user_watches
+//!   * `sel`: `WaitSet<SelService>`    — reactor::posix_select (+ FileDescriptorSet), capacity = FD_SETSIZE
+//!   * `cap`: `WaitSet<CapService>`    — TEST DOUBLE: the real epoll reactor behind a wrapper that has a
+//!            small configurable capacity and, like FileDescriptorSet::add, refuses with
+//!            `ReactorAttachError::CapacityExceeded` when full (checked before the membership test).
+//!            Only this makes the wait set's capacity paths reachable with a handful of attachments.
+//!
+//! Time: the deadline queue reads the real monotonic clock, which cannot be injected.  The model's
+//! clock is a logical counter of units; the harness maps 1 unit = UNIT_MS milliseconds:
+//! `advance k` sleeps until `base + T*UNIT + j` where j is the real-time offset ("jitter") of the
+//! previous operation inside its unit; so the offsets of successive clock reads inside their units
+//! never decrease, and as long as the accumulated offset stays below one unit every quotient
+//! `(t1 - t0) / period` the deadline queue computes equals the quotient of the logical times (periods
+//! are whole units).  The offset is checked after every operation of a case that uses a finite
+//! period; when it exceeds 3/4 unit (machine overloaded) the case is re-executed from its start.
+//! Periods used: 0 (always expired), a few units (expire through `advance`), 1_000_000 units (never).
 use crate::common::*;
+use core::time::Duration;
+use iceoryx2::port::listener::Listener;
+use iceoryx2::port::notifier::Notifier;
+use iceoryx2::prelude::*;
+use iceoryx2::waitset::{WaitSet, WaitSetAttachmentId, WaitSetGuard};
+use iceoryx2_bb_elementary_traits::testing::abandonable::Abandonable;
+use iceoryx2_bb_elementary_traits::zero_copy_send::ZeroCopySend;
+use iceoryx2_bb_posix::file_descriptor::FileDescriptor;
+use iceoryx2_bb_posix::file_descriptor_set::SynchronousMultiplexing;
+use iceoryx2_cal::reactor::epoll::{Epoll, EpollBuilder, EpollGuard};
+use iceoryx2_cal::reactor::{Reactor, ReactorAttachError, ReactorBuilder, ReactorCreateError, ReactorWaitError};
+use iceoryx2_cal::shm_allocator::bump_allocator::BumpAllocator;
+use iceoryx2_cal::shm_allocator::pool_allocator::PoolAllocator;
+use iceoryx2_cal::*;
+use std::collections::BTreeMap;
+use std::fmt::Debug;
+use std::time::Instant;
 
-pub struct WaitSetComp;
+static SERVICE_COUNTER: std::sync::atomic::AtomicUsize = std::sync::atomic::AtomicUsize::new(0);
+const EVENT_ID_MAX: usize = 7;
+pub const FAR: u64 = 1_000_000;
+
+thread_local! { static UNIT_SCALE: std::cell::Cell<u32> = const { std::cell::Cell::new(1) }; }
+/// real duration of one logical time unit (doubled by every re-execution of a case after a clock overrun)
+fn unit() -> Duration {
+    UNIT_SCALE.with(|c| c.get()) * Duration::from_millis(std::env::var("VERIF_C20_UNIT_MS").ok().and_then(|v| v.parse().ok()).unwrap_or(10))
+}
+
+// ------------------------------------------------------------------------------------------------
+// wait-set variants
+
+macro_rules! service_like_ipc {
+    ($name:ident, $reactor:ty) => {
+        #[derive(Debug, Clone)]
+        pub struct $name {}
+        impl iceoryx2::service::Service for $name {
+            type StaticStorage = static_storage::recommended::Ipc;
+            type ConfigSerializer = serialize::recommended::Recommended;
+            type PersistentDynamicStorage<T: Debug + Send + Sync + ZeroCopySend + 'static> = dynamic_storage::recommended::PersistentIpc<T>;
+            type DynamicStorage<T: Debug + Send + Sync + ZeroCopySend + 'static> = dynamic_storage::recommended::Ipc<T>;
+            type ServiceNameHasher = hash::recommended::Recommended;
+            type SharedMemory = shared_memory::recommended::Ipc<PoolAllocator>;
+            type ResizableSharedMemory = resizable_shared_memory::recommended::Ipc<PoolAllocator>;
+            type Connection = zero_copy_connection::recommended::Ipc;
+            type Event = event::recommended::Ipc;
+            type Monitoring = monitoring::recommended::Ipc;
+            type Reactor = $reactor;
+            type ArcThreadSafetyPolicy<T: Send + Debug + Abandonable> = arc_sync_policy::single_threaded::SingleThreaded<T>;
+            type BlackboardMgmt<KeyType: Send + Sync + Debug + ZeroCopySend + 'static> = dynamic_storage::recommended::Ipc<KeyType>;
+            type BlackboardPayload = shared_memory::recommended::Ipc<BumpAllocator>;
+        }
+        impl iceoryx2::service::internal::ServiceInternal<$name> for $name {}
+    };
+}
+service_like_ipc!(SelService, reactor::posix_select::Reactor);
+service_like_ipc!(CapService, CapReactor);
+
+thread_local! { static CAP: std::cell::Cell<usize> = const { std::cell::Cell::new(4) }; }
+
+/// test double: real epoll reactor with a small capacity
+#[derive(Debug)]
+pub struct CapReactor {
+    inner: Epoll,
+    cap: usize,
+}
+pub struct CapReactorBuilder;
+impl ReactorBuilder<CapReactor> for CapReactorBuilder {
+    fn new() -> Self {
+        CapReactorBuilder
+    }
+    fn create(self) -> Result<CapReactor, ReactorCreateError> {
+        let inner = <EpollBuilder as ReactorBuilder<Epoll>>::create(<EpollBuilder as ReactorBuilder<Epoll>>::new())?;
+        Ok(CapReactor { inner, cap: CAP.with(|c| c.get()) })
+    }
+}
+impl Reactor for CapReactor {
+    type Guard<'reactor, 'attachment> = EpollGuard<'reactor, 'attachment>;
+    type Builder = CapReactorBuilder;
+    fn capacity(&self) -> usize {
+        self.cap
+    }
+    fn len(&self) -> usize {
+        Reactor::len(&self.inner)
+    }
+    fn is_empty(&self) -> bool {
+        Reactor::is_empty(&self.inner)
+    }
+    fn attach<'reactor, 'attachment, F: SynchronousMultiplexing + Debug + ?Sized>(&'reactor self, value: &'attachment F) -> Result<Self::Guard<'reactor, 'attachment>, ReactorAttachError> {
+        // same order as FileDescriptorSet::add_impl: capacity first, then membership
+        if Reactor::len(&self.inner) >= self.cap {
+            return Err(ReactorAttachError::CapacityExceeded);
+        }
+        Reactor::attach(&self.inner, value)
+    }
+    fn try_wait<F: FnMut(&FileDescriptor)>(&self, fn_call: F) -> Result<usize, ReactorWaitError> {
+        Reactor::try_wait(&self.inner, fn_call)
+    }
+    fn timed_wait<F: FnMut(&FileDescriptor)>(&self, fn_call: F, timeout: Duration) -> Result<usize, ReactorWaitError> {
+        Reactor::timed_wait(&self.inner, fn_call, timeout)
+    }
+    fn blocking_wait<F: FnMut(&FileDescriptor)>(&self, fn_call: F) -> Result<usize, ReactorWaitError> {
+        Reactor::blocking_wait(&self.inner, fn_call)
+    }
+}
+
+// ------------------------------------------------------------------------------------------------
+
+type L = Listener<ipc::Service>;
+
+#[derive(Clone, Copy, PartialEq)]
+enum GKind {
+    Notification,
+    Deadline,
+    Tick,
+}
+
+/// the ports of one (nlisteners, nservices) configuration; created once per process and reused by
+/// every case with that configuration (listeners are drained at `new`), destroyed at process exit
+struct PoolEntry {
+    nl: usize,
+    ns: usize,
+    listeners: Vec<*mut L>,
+    notifiers: Vec<*mut Notifier<ipc::Service>>,
+    services: Vec<iceoryx2::service::port_factory::event::PortFactory<ipc::Service>>,
+    node: Option<Node<ipc::Service>>,
+}
+struct Pool(Vec<PoolEntry>);
+unsafe impl Send for Pool {}
+static POOL: std::sync::Mutex<Pool> = std::sync::Mutex::new(Pool(Vec::new()));
+static REGISTER: std::sync::Once = std::sync::Once::new();
+unsafe extern "C" {
+    fn atexit(cb: extern "C" fn()) -> i32;
+}
+extern "C" fn cleanup_pool() {
+    if let Ok(mut p) = POOL.lock() {
+        for mut e in p.0.drain(..) {
+            for l in e.listeners.drain(..) { drop(unsafe { Box::from_raw(l) }); }
+            for x in e.notifiers.drain(..) { drop(unsafe { Box::from_raw(x) }); }
+            e.services.clear();
+            e.node = None;
+        }
+    }
+    // the per-domain management segment outlives its nodes by design; this process owns the domain
+    let _ = unsafe { iceoryx2::testing::remove_global_mgmt_segment::<ipc::Service>(&own_config()) };
+}
+
+fn own_config() -> iceoryx2::config::Config {
+    let mut config = iceoryx2::config::Config::global_config().clone();
+    // own domain: nothing is shared with other iceoryx2 users of this machine
+    config.global.prefix = iceoryx2_bb_system_types::file_name::FileName::new(format!("vw{}_", std::process::id()).as_bytes()).unwrap();
+    config
+}
+
+fn pool_get(nl: usize, ns: usize) -> Result<(Vec<&'static L>, Vec<&'static Notifier<ipc::Service>>), String> {
+    REGISTER.call_once(|| unsafe { atexit(cleanup_pool); });
+    let mut p = POOL.lock().unwrap();
+    if !p.0.iter().any(|e| e.nl == nl && e.ns == ns) {
+        let config = own_config();
+        let node = NodeBuilder::new().config(&config).create::<ipc::Service>().map_err(|e| format!("err:node:{e:?}"))?;
+        let mut services = vec![];
+        for _ in 0..ns {
+            let k = SERVICE_COUNTER.fetch_add(1, std::sync::atomic::Ordering::Relaxed);
+            let name = ServiceName::new(&format!("verif/waitset/{}/{k}", std::process::id())).unwrap();
+            let service = node
+                .service_builder(&name)
+                .event()
+                .max_listeners(4)
+                .max_notifiers(1)
+                .event_id_max_value(EVENT_ID_MAX)
+                .disable_deadline()
+                .disable_notifier_created_event()
+                .disable_notifier_dropped_event()
+                .disable_notifier_dead_event()
+                .create()
+                .map_err(|e| format!("err:service:{e:?}"))?;
+            services.push(service);
+        }
+        let mut listeners = vec![];
+        for l in 0..nl {
+            listeners.push(Box::into_raw(Box::new(services[l % ns].listener_builder().create().map_err(|e| format!("err:listener:{e:?}"))?)));
+        }
+        let mut notifiers = vec![];
+        for s in services.iter() {
+            notifiers.push(Box::into_raw(Box::new(s.notifier_builder().create().map_err(|e| format!("err:notifier:{e:?}"))?)));
+        }
+        p.0.push(PoolEntry { nl, ns, listeners, notifiers, services, node: Some(node) });
+    }
+    let e = p.0.iter().find(|e| e.nl == nl && e.ns == ns).unwrap();
+    Ok((e.listeners.iter().map(|l| unsafe { &**l }).collect(), e.notifiers.iter().map(|x| unsafe { &**x }).collect()))
+}
+
+/// field order = drop order: guards, then the wait set (the ports live in the pool)
+struct World<S: iceoryx2::service::Service + 'static>
+where
+    S::Reactor: 'static,
+{
+    guards: BTreeMap<u64, (WaitSetGuard<'static, 'static, S>, GKind)>,
+    ws: Box<WaitSet<S>>,
+    listeners: Vec<&'static L>,
+    notifiers: Vec<&'static Notifier<ipc::Service>>,
+    // logical clock
+    base: Instant,
+    t: u64,
+    jitter: Duration,
+    timed: bool,
+    unit: Duration,
+}
+
+fn n(s: &str) -> u64 {
+    s.parse().unwrap()
+}
+
+pub fn real_capacity(variant: &str) -> u64 {
+    match variant {
+        "ipc" => Epoll::capacity().unwrap_or(Epoll::max_wait_events()) as u64,
+        "sel" => iceoryx2_bb_posix::file_descriptor_set::FileDescriptorSet::capacity() as u64,
+        _ => 0,
+    }
+}
+
+fn mk<S: iceoryx2::service::Service + 'static>(t: &[&str]) -> Result<World<S>, String>
+where
+    S::Reactor: 'static,
+{
+    // new <variant> <capacity> <nlisteners> <nservices>
+    let (nl, ns) = (n(t[3]) as usize, n(t[4]) as usize);
+    let (listeners, notifiers) = pool_get(nl, ns)?;
+    for l in listeners.iter() {
+        let _ = l.try_wait(|_| {});
+    }
+    CAP.with(|c| c.set(n(t[2]) as usize));
+    let ws = WaitSetBuilder::new().signal_handling_mode(SignalHandlingMode::Disabled).create::<S>().map_err(|e| format!("err:waitset:{e:?}"))?;
+    Ok(World { guards: BTreeMap::new(), ws: Box::new(ws), listeners, notifiers, base: Instant::now(), t: 0, jitter: Duration::ZERO, timed: false, unit: unit() })
+}
+
+
+fn exec<S: iceoryx2::service::Service + 'static>(w: &mut World<S>, t: &[&str]) -> String
+where
+    S::Reactor: 'static,
+{
+    // the guards borrow the (boxed, never moved) wait set and listeners; `World` drops the guards first
+    let ws: &'static WaitSet<S> = unsafe { &*(w.ws.as_ref() as *const WaitSet<S>) };
+    let listener = |l: u64| -> Option<&'static L> { w.listeners.get(l as usize).copied() };
+    let attach_result = |r: Result<WaitSetGuard<'static, 'static, S>, iceoryx2::waitset::WaitSetAttachmentError>, g: u64, k: GKind, guards: &mut BTreeMap<u64, (WaitSetGuard<'static, 'static, S>, GKind)>| match r {
+        Ok(guard) => {
+            guards.insert(g, (guard, k));
+            "ok".to_string()
+        }
+        Err(e) => format!("err:{e:?}"),
+    };
+    match t[0] {
+        "attach_n" => match listener(n(t[2])) {
+            None => "none".into(),
+            Some(_) if w.guards.contains_key(&n(t[1])) => "dup".into(),
+            Some(l) => attach_result(ws.attach_notification(l), n(t[1]), GKind::Notification, &mut w.guards),
+        },
+        "attach_d" => match listener(n(t[2])) {
+            None => "none".into(),
+            Some(_) if w.guards.contains_key(&n(t[1])) => "dup".into(),
+            Some(l) => {
+                if n(t[3]) != 0 && n(t[3]) < FAR { w.timed = true; }
+                attach_result(ws.attach_deadline(l, w.unit * (n(t[3]) as u32)), n(t[1]), GKind::Deadline, &mut w.guards)
+            }
+        },
+        "attach_i" => {
+            if w.guards.contains_key(&n(t[1])) { "dup".into() } else {
+                if n(t[2]) != 0 && n(t[2]) < FAR { w.timed = true; }
+                attach_result(ws.attach_interval(w.unit * (n(t[2]) as u32)), n(t[1]), GKind::Tick, &mut w.guards)
+            }
+        }
+        "drop_guard" => match w.guards.remove(&n(t[1])) {
+            Some(g) => {
+                drop(g);
+                "ok".into()
+            }
+            None => "none".into(),
+        },
+        "notify" => match w.listeners.get(n(t[1]) as usize) {
+            None => "none".into(),
+            Some(l) => {
+                // the notifier of the listener's service, addressed to this single listener
+                let id = l.id();
+                let notifier = &w.notifiers[n(t[1]) as usize % w.notifiers.len()];
+                let mut res = "not-connected".to_string();
+                notifier.for_each_listener(|m, details| {
+                    if details.listener_id == id {
+                        res = match m.notify_with_custom_event_id(EventId::new(n(t[2]) as usize)) { Ok(()) => "ok".into(), Err(e) => format!("err:{e:?}") };
+                        CallbackProgression::Stop
+                    } else {
+                        CallbackProgression::Continue
+                    }
+                });
+                res
+            }
+        },
+        "notify_all" => match w.notifiers.get(n(t[1]) as usize) {
+            None => "none".into(),
+            Some(nf) => match nf.notify_with_custom_event_id(EventId::new(n(t[2]) as usize)) { Ok(k) => format!("ok:{k}"), Err(e) => format!("err:{e:?}") },
+        },
+        "drain" => match w.listeners.get(n(t[1]) as usize) {
+            None => "none".into(),
+            Some(l) => {
+                let mut v: Vec<(usize, u64)> = vec![];
+                match l.try_wait(|a| v.push((a.id.as_value(), a.count))) {
+                    Ok(_) => {
+                        v.sort();
+                        format!("[{}]", v.iter().map(|(i, c)| format!("{i}*{c}")).collect::<Vec<_>>().join(","))
+                    }
+                    Err(e) => format!("err:{e:?}"),
+                }
+            }
+        },
+        "run_once" => {
+            let mut reports: Vec<(u64, char)> = vec![];
+            let mut foreign = 0;
+            let guards = &w.guards;
+            let r = ws.wait_and_process_once_with_timeout(
+                |id: WaitSetAttachmentId<S>| {
+                    let mut hit = false;
+                    for (label, (g, k)) in guards.iter() {
+                        if id.has_missed_deadline(g) {
+                            reports.push((*label, 'd'));
+                            hit = true;
+                        } else if id.has_event_from(g) {
+                            reports.push((*label, if *k == GKind::Tick { 't' } else { 'n' }));
+                            hit = true;
+                        }
+                    }
+                    if !hit {
+                        foreign += 1;
+                    }
+                    CallbackProgression::Continue
+                },
+                Duration::ZERO,
+            );
+            if foreign > 0 {
+                oracle_fail("callback invoked with an attachment id that belongs to no live guard".to_string());
+            }
+            reports.sort();
+            let body = reports.iter().map(|(l, k)| format!("{l}:{k}")).collect::<Vec<_>>().join(",");
+            match r {
+                Ok(v) => format!("ok:{v:?}:[{body}]{}", if foreign > 0 { format!("+foreign{foreign}") } else { String::new() }),
+                Err(e) => format!("err:{e:?}"),
+            }
+        }
+        "advance" => {
+            w.t += n(t[1]);
+            let target = w.base + w.unit * (w.t as u32) + w.jitter;
+            loop {
+                let now = Instant::now();
+                if now >= target { break; }
+                let rest = target - now;
+                if rest > Duration::from_micros(300) { std::thread::sleep(rest - Duration::from_micros(200)); } else { std::hint::spin_loop(); }
+            }
+            "ok".into()
+        }
+        "len" => format!("{}", ws.len()),
+        "capacity" => format!("{}", ws.capacity()),
+        "is_empty" => format!("{}", ws.is_empty()),
+        "fill" => {
+            // fill <base-label> <n> <period>: interval attachments base, base+1, ...; stops at the first refusal
+            let (base, cnt, p) = (n(t[1]), n(t[2]), n(t[3]));
+            let mut done = 0;
+            let mut last = "ok".to_string();
+            for i in 0..cnt {
+                if w.guards.contains_key(&(base + i)) { last = "dup".into(); break; }
+                last = attach_result(ws.attach_interval(w.unit * (p as u32)), base + i, GKind::Tick, &mut w.guards);
+                if last != "ok" { break; }
+                done += 1;
+            }
+            format!("{done}:{last}")
+        }
+        _ => panic!("bad op"),
+    }
+}
+
+/// offset of the real clock inside the current logical unit; None = the unit was overrun
+fn settle<S: iceoryx2::service::Service + 'static>(w: &mut World<S>) -> bool
+where
+    S::Reactor: 'static,
+{
+    let elapsed = w.base.elapsed();
+    let start = w.unit * (w.t as u32);
+    if elapsed < start { return false; }
+    let j = elapsed - start;
+    w.jitter = w.jitter.max(j);
+    !(w.timed && j >= w.unit * 3 / 4)
+}
+
+enum AnyWorld {
+    None,
+    Ipc(Box<World<ipc::Service>>),
+    Sel(Box<World<SelService>>),
+    Cap(Box<World<CapService>>),
+}
+pub struct WaitSetComp {
+    w: AnyWorld,
+    history: Vec<String>,
+}
 impl WaitSetComp {
     pub fn new() -> Self {
-        WaitSetComp
+        WaitSetComp { w: AnyWorld::None, history: vec![] }
+    }
+    /// executes one line; false = the logical clock was overrun
+    fn exec1(&mut self, t: &[&str]) -> (String, bool) {
+        if t[0] == "new" {
+            self.w = AnyWorld::None;
+            let r = match t[1] {
+                "ipc" => mk::<ipc::Service>(t).map(|w| AnyWorld::Ipc(Box::new(w))),
+                "sel" => mk::<SelService>(t).map(|w| AnyWorld::Sel(Box::new(w))),
+                _ => mk::<CapService>(t).map(|w| AnyWorld::Cap(Box::new(w))),
+            };
+            return match r { Ok(w) => { self.w = w; ("ok".into(), true) } Err(e) => (e, true) };
+        }
+        match &mut self.w {
+            AnyWorld::None => ("no-world".into(), true),
+            AnyWorld::Ipc(w) => { let r = exec(w, t); let ok = settle(w); (r, ok) }
+            AnyWorld::Sel(w) => { let r = exec(w, t); let ok = settle(w); (r, ok) }
+            AnyWorld::Cap(w) => { let r = exec(w, t); let ok = settle(w); (r, ok) }
+        }
     }
 }
+
 impl Comp for WaitSetComp {
-    fn exec(&mut self, _t: &[&str]) -> String {
-        "unimplemented".into()
+    fn exec(&mut self, t: &[&str]) -> String {
+        if t[0] == "new" { self.history.clear(); UNIT_SCALE.with(|c| c.set(1)); }
+        self.history.push(t.join(" "));
+        let (mut r, mut ok) = self.exec1(t);
+        let mut tries = 0;
+        while !ok && tries < 6 {
+            // the machine stalled us for most of a unit: the outputs of this case no longer follow the
+            // logical clock; run the case again from its start
+            tries += 1;
+            UNIT_SCALE.with(|c| c.set(1 << tries));
+            let _ = take_oracle();
+            let h = self.history.clone();
+            ok = true;
+            for line in h.iter() {
+                let toks: Vec<&str> = line.split(' ').collect();
+                let (r2, ok2) = self.exec1(&toks);
+                r = r2;
+                if !ok2 { ok = false; break; }
+            }
+        }
+        if !ok { r.push_str(" CLOCK-OVERRUN"); }
+        r
     }
 }
-pub fn generate(_a: &Args) -> Vec<Vec<String>> {
-    vec![]
+
+// ------------------------------------------------------------------------------------------------
+// generators
+
+fn pick_period(rng: &mut Rng, timed: bool) -> u64 {
+    if timed {
+        *rng.pick(&[0, 1, 1, 2, 2, 3, 5, FAR])
+    } else if rng.chance(25) { 0 } else { FAR }
+}
+
+pub fn generate(a: &Args) -> Vec<Vec<String>> {
+    let mut rng = Rng::new(a.seed);
+    let fixed = a.rest.iter().find(|x| ["ipc", "sel", "cap"].contains(&x.as_str())).cloned();
+    let timed = a.rest.iter().any(|x| x == "timed");
+    let full = a.rest.iter().any(|x| x == "full");
+    if a.exhaustive > 0 {
+        return exhaustive(a, fixed.as_deref().unwrap_or("cap"));
+    }
+    let mut cases = vec![];
+    for _ in 0..a.cases {
+        let variant = fixed.clone().unwrap_or_else(|| rng.pick(&["ipc", "sel", "cap", "cap"]).to_string());
+        let nl = rng.range(1, 4);
+        let ns = rng.range(1, 2);
+        let cap = if variant == "cap" { rng.range(1, 5) } else { real_capacity(&variant) };
+        let mut lines = vec![format!("new {variant} {cap} {nl} {ns}")];
+        let mut next_label = 0u64;
+        // what is probably attached: label -> listener (None: interval)
+        let mut live: Vec<(u64, Option<u64>)> = vec![];
+        if full && variant == "sel" {
+            // bring the wait set close to its real capacity with never-expiring intervals
+            let k = cap - rng.range(0, 3);
+            lines.push(format!("fill 100000 {k} {FAR}"));
+            lines.push("len".to_string());
+        }
+        // weights: attach_n attach_d attach_i drop notify notify_all drain run_once advance len capacity is_empty
+        let wts: [u64; 12] = [14, 9, 7, 11, 17, 4, 8, 22, if timed { 8 } else { 0 }, 2, 1, 1];
+        let total: u64 = wts.iter().sum();
+        for _ in 0..rng.range(3, a.len) {
+            let mut c = rng.below(total);
+            let mut k = 0;
+            while c >= wts[k] { c -= wts[k]; k += 1; }
+            if live.is_empty() && k == 7 && rng.chance(70) { k = rng.below(3) as usize; }
+            // listener: mostly valid, sometimes one that does not exist
+            let l = if rng.chance(3) { nl } else { rng.below(nl) };
+            // listener for an attach: mostly one that is not attached
+            let free: Vec<u64> = (0..nl).filter(|x| !live.iter().any(|(_, o)| *o == Some(*x))).collect();
+            let la = if !free.is_empty() && rng.chance(85) { *rng.pick(&free) } else { l };
+            let label = |rng: &mut Rng, next: &mut u64, live: &Vec<(u64, Option<u64>)>| -> u64 {
+                if !live.is_empty() && rng.chance(4) { rng.pick(live).0 } else { let g = *next; *next += 1; g }
+            };
+            let attached = |live: &mut Vec<(u64, Option<u64>)>, g: u64, o: Option<u64>| {
+                let taken = o.is_some() && live.iter().any(|(_, x)| *x == o);
+                if !live.iter().any(|(x, _)| *x == g) && !taken && (live.len() as u64) < cap && o.map(|x| x < nl).unwrap_or(true) { live.push((g, o)); }
+            };
+            let line = match k {
+                0 => { let g = label(&mut rng, &mut next_label, &live); attached(&mut live, g, Some(la)); format!("attach_n {g} {la}") }
+                1 => { let g = label(&mut rng, &mut next_label, &live); attached(&mut live, g, Some(la)); format!("attach_d {g} {la} {}", pick_period(&mut rng, timed)) }
+                2 => { let g = label(&mut rng, &mut next_label, &live); attached(&mut live, g, None); format!("attach_i {g} {}", pick_period(&mut rng, timed)) }
+                3 => {
+                    if live.is_empty() || rng.chance(8) { format!("drop_guard {}", next_label + rng.below(3)) } else {
+                        let i = rng.below(live.len() as u64) as usize;
+                        format!("drop_guard {}", live.remove(i).0)
+                    }
+                }
+                4 => format!("notify {l} {}", if rng.chance(3) { EVENT_ID_MAX as u64 + 1 + rng.below(3) } else { rng.below(3) }),
+                5 => format!("notify_all {} {}", if rng.chance(5) { ns } else { rng.below(ns) }, if rng.chance(4) { EVENT_ID_MAX as u64 + 1 } else { rng.below(3) }),
+                6 => format!("drain {l}"),
+                7 => "run_once".to_string(),
+                8 => format!("advance {}", rng.range(1, 3)),
+                9 => "len".to_string(),
+                10 => "capacity".to_string(),
+                _ => "is_empty".to_string(),
+            };
+            lines.push(line);
+        }
+        cases.push(lines);
+    }
+    cases
+}
+
+/// every sequence of length L over a fixed alphabet; configurations with a capacity that is reached
+fn exhaustive(a: &Args, variant: &str) -> Vec<Vec<String>> {
+    let mut cases = vec![];
+    let timed = a.rest.iter().any(|x| x == "timed");
+    let alphabet: Vec<String> = if timed {
+        ["attach_d 0 2", "attach_i 2", "attach_n 1", "drop", "notify 0 1", "drain 0", "run_once", "advance 1", "advance 2"].iter().map(|x| x.to_string()).collect()
+    } else {
+        ["attach_n 0", "attach_n 1", "attach_d 0 F", "attach_d 1 0", "attach_i F", "attach_i 0", "drop_old", "drop_new", "notify 0 1", "notify 1 2", "drain 0", "run_once"].iter().map(|x| x.to_string()).collect()
+    };
+    let configs: Vec<String> = if variant == "cap" { vec!["new cap 2 2 1".into(), "new cap 1 2 2".into()] } else { vec![format!("new {variant} {} 2 1", real_capacity(variant))] };
+    for cfg in configs.iter() {
+        enumerate_seqs(&alphabet, a.exhaustive as usize, &mut |seq| {
+            let mut lines = vec![cfg.clone()];
+            let mut next = 0u64;
+            let mut live: Vec<u64> = vec![];
+            for &i in seq {
+                let s = alphabet[i].replace(" F", &format!(" {FAR}"));
+                let tk: Vec<&str> = s.split(' ').collect();
+                match tk[0] {
+                    "attach_n" | "attach_d" | "attach_i" => {
+                        lines.push(format!("{} {next} {}", tk[0], tk[1..].join(" ")));
+                        live.push(next);
+                        next += 1;
+                    }
+                    "drop_old" | "drop" => lines.push(format!("drop_guard {}", if live.is_empty() { 99 } else { live.remove(0) })),
+                    "drop_new" => lines.push(format!("drop_guard {}", live.pop().unwrap_or(99))),
+                    _ => lines.push(s.clone()),
+                }
+            }
+            lines.push("run_once".to_string());
+            lines.push("len".to_string());
+            cases.push(lines);
+        });
+    }
+    cases
 }
